@@ -9,6 +9,8 @@ Helper lemmas for L6 `DtRes` (used by `RTV/Props/C06.lean`, `RTV/Props/C07.lean`
 * `Clock` (a written digit clock time) and `matchToTime_clock`, `resolveTime_clock`
 * dates: `Decodes` (what a layout's groups decode to), `matchToDate_of`, `resolveDate_valid`, `resolveDate_invalid`,
   two-digit-year pivot lemmas
+* `<date> at <time>`: `merge_clock`, `allStrToPm_one` (`all_str_to_pm` on `<prefix>Thh<suffix>`),
+  `dtRes_datetime_plain/ampm`, `resolveDateAtTime_clock`
 -/
 namespace RTV.DtRes
 open RTV.Py RTV.Cal
@@ -523,5 +525,281 @@ theorem resolveDate_invalid (u : Uni) (cfg : DateCfg) (g : DateGroups) (y mo d y
 def leadingNum (s : Str) : Option Nat :=
   let ds := s.takeWhile (fun c => 48 ≤ c && c ≤ 57)
   if ds.isEmpty then none else some (ds.foldl (fun a c => a * 10 + (c - 48)) 0)
+
+
+/-! ### `<date> at <time>` -/
+
+def sDateTime : Str := DType.name .datetime
+
+theorem endsWith_mem (s p : Str) (h : endsWith s p = true) : ∀ x ∈ p, x ∈ s := by
+  intro x hx
+  simp only [endsWith, Bool.and_eq_true, decide_eq_true_eq] at h
+  rw [← h.2] at hx
+  exact List.mem_of_mem_drop hx
+
+theorem timex_le (c : Clock) (wf60 : c.m < 60 ∧ c.s < 60) (hh : Nat) (h : hh < 100) : ∀ x ∈ c.timex hh, x ≤ 84 := by
+  intro x hx
+  have hm : ∀ p, c.ms = some p → p.2 = c.m := by intro p e; simp [Clock.m, e]
+  have hs : ∀ p, c.ss = some p → p.2 = c.s := by intro p e; simp [Clock.s, e]
+  simp only [Clock.timex, Clock.tail, fmtD2 hh h] at hx
+  cases em : c.ms with
+  | none =>
+    cases es : c.ss with
+    | none => simp [em, es] at hx; omega
+    | some q =>
+      have := hs q es
+      simp [em, es, sColon, fmtD2 q.2 (by omega)] at hx; omega
+  | some p =>
+    have := hm p em
+    cases es : c.ss with
+    | none => simp [em, es, sColon, fmtD2 p.2 (by omega)] at hx; omega
+    | some q =>
+      have := hs q es
+      simp [em, es, sColon, fmtD2 p.2 (by omega), fmtD2 q.2 (by omega)] at hx; omega
+
+theorem timex_not_ampm (c : Clock) (wf60 : c.m < 60 ∧ c.s < 60) (hh : Nat) (h : hh < 100) :
+    endsWith (c.timex hh) sAmPm = false := by
+  cases e : endsWith (c.timex hh) sAmPm with
+  | false => rfl
+  | true =>
+    have := timex_le c wf60 hh h 109 (endsWith_mem _ _ e 109 (by decide))
+    omega
+
+theorem timex_drop3 (c : Clock) (hh : Nat) (h : hh < 100) : (c.timex hh).drop 3 = c.tail := by
+  simp [Clock.timex, fmtD2 hh h]
+
+theorem wf_m60 (u : Uni) (c : Clock) (wf : c.WF u) : c.m < 60 ∧ c.s < 60 := by
+  constructor
+  · unfold Clock.m; cases e : c.ms with
+    | none => simp
+    | some p => simpa using (wf.minute p e).2
+  · unfold Clock.s; cases e : c.ss with
+    | none => simp
+    | some p => simpa using (wf.second p e).2
+
+/-- `merge_date_and_time` of a resolved date and a decoded clock time (no "morning/afternoon" words in the text) -/
+theorem merge_clock (c : Clock) (w60 : c.m < 60 ∧ c.s < 60) (hh : Nat) (h24 : hh < 24) (dtx cm : Str) (y mo d : Nat)
+    (hv : (⟨y, mo, d⟩ : Date).valid = true) (tv : DT) (htv : tv.hh = hh ∧ tv.mi = c.m ∧ tv.ss = c.s) :
+    mergeDateAndTime (toSlot .date (Res.mk true dtx [] ⟨y, mo, d, 0, 0, 0⟩ ⟨y, mo, d, 0, 0, 0⟩))
+        (toSlot .time (Res.mk true (c.timex hh) cm tv tv)) false false =
+      .ok (Res.mk true (dtx ++ c.timex hh) (if hh ≤ 12 ∧ cm ≠ [] then sAmPm else []) ⟨y, mo, d, hh, c.m, c.s⟩
+        ⟨y, mo, d, hh, c.m, c.s⟩) := by
+  obtain ⟨e1, e2, e3⟩ := htv
+  have mk := mkDateTime_ok ⟨y, mo, d, 0, 0, 0⟩ (by simpa [DT.date] using hv) hh c.m c.s h24 w60.1 w60.2
+  simp only at mk
+  have e : 84 :: (fmtD 2 (hh : Int) ++ c.tail) = c.timex hh := rfl
+  simp [mergeDateAndTime, toSlot, e1, e2, e3, timex_not_ampm c w60 hh (by omega), timex_drop3 c hh (by omega), mk, e]
+
+theorem formatDateTime_eq (y mo d hh m s : Nat) :
+    formatDateTime ⟨y, mo, d, hh, m, s⟩ = ymd y mo d ++ 32 :: hms hh m s := by
+  simp [formatDateTime, formatDate_eq, formatTime_eq]
+
+theorem gen_datetime (y mo d hh m s : Nat) (h1 : 1000 ≤ y) (h2 : y < 10000) :
+    generateFromResolution (ymd y mo d ++ 32 :: hms hh m s) = some (ymd y mo d ++ 32 :: hms hh m s) := by
+  rw [ymd_eq y mo d h1 h2]
+  have : ¬ (y / 1000 = 0) := by omega
+  simp [generateFromResolution, startsWith, sDateMin_eq, this]
+
+/-- an unambiguous datetime slot resolves to the single value `YYYY-MM-DD hh:mm:ss` -/
+theorem dtRes_datetime_plain (u : Uni) (timex : Str) (y mo d hh m s : Nat) (h1 : 1000 ≤ y) (h2 : y < 10000) :
+    dateTimeResolution u (toSlot .datetime (Res.mk true timex [] ⟨y, mo, d, hh, m, s⟩ ⟨y, mo, d, hh, m, s⟩)) =
+      .ok (some [{ timex := timex, type := sDateTime, value := some (ymd y mo d ++ 32 :: hms hh m s) }]) := by
+  simp [dateTimeResolution, toSlot, fmtFor, formatDateTime_eq, gen_datetime y mo d hh m s h1 h2, sDateTime,
+    Ne.symm sAmPm_ne_nil]
+
+
+/-! ### `all_str_to_pm` on `<prefix>Thh<suffix>` -/
+
+theorem go_step_ne (u : Uni) (f : Nat) (prev : Option Nat) (i c : Nat) (r : Str) (hc : c ≠ 84) :
+    hourTimeMatches.go u (f + 1) prev i (c :: r) = hourTimeMatches.go u f (some c) (i + 1) r := by
+  cases r with
+  | nil => simp [hourTimeMatches.go]
+  | cons d1 r1 =>
+    cases r1 with
+    | nil => simp [hourTimeMatches.go]
+    | cons d2 r2 => simp [hourTimeMatches.go, hc]
+
+theorem go_no84 (u : Uni) (f : Nat) : ∀ (prev : Option Nat) (i : Nat) (s : Str), 84 ∉ s →
+    hourTimeMatches.go u f prev i s = [] := by
+  induction f with
+  | zero => intro prev i s _; simp [hourTimeMatches.go]
+  | succ f ih =>
+    intro prev i s hs
+    cases s with
+    | nil => simp [hourTimeMatches.go]
+    | cons c r =>
+      have hc : c ≠ 84 := by intro e; apply hs; simp [e]
+      have hr : 84 ∉ r := by intro e; apply hs; simp [e]
+      rw [go_step_ne u f prev i c r hc]
+      exact ih _ _ r hr
+
+def lastOpt (prev : Option Nat) (pre : Str) : Option Nat :=
+  match pre.getLast? with
+  | some l => some l
+  | none => prev
+
+theorem go_skip (u : Uni) (f : Nat) (rest : Str) : ∀ (pre : Str) (prev : Option Nat) (i : Nat), 84 ∉ pre →
+    hourTimeMatches.go u (pre.length + f) prev i (pre ++ rest) =
+      hourTimeMatches.go u f (lastOpt prev pre) (i + pre.length) rest := by
+  intro pre
+  induction pre with
+  | nil => intro prev i _; simp [lastOpt]
+  | cons c pre ih =>
+    intro prev i hp
+    have hc : c ≠ 84 := by intro e; apply hp; simp [e]
+    have hr : 84 ∉ pre := by intro e; apply hp; simp [e]
+    have e : (c :: pre).length + f = (pre.length + f) + 1 := by simp; omega
+    rw [e, List.cons_append, go_step_ne u _ prev i c _ hc, ih (some c) (i + 1) hr]
+    have l : lastOpt (some c) pre = lastOpt prev (c :: pre) := by
+      unfold lastOpt
+      cases pre with
+      | nil => simp
+      | cons a b =>
+        simp only [List.getLast?_cons_cons]
+        have : (a :: b).getLast? = some ((a :: b).getLast (by simp)) := List.getLast?_eq_some_getLast (by simp)
+        rw [this]
+    rw [l]
+    congr 1
+    simp; omega
+
+theorem go_hit (u : Uni) (f : Nat) (prev : Option Nat) (i d1 d2 : Nat) (r2 : Str) (hp : prev ≠ some 80)
+    (h1 : (u.digitVal d1).isSome = true) (h2 : (u.digitVal d2).isSome = true) :
+    hourTimeMatches.go u (f + 1) prev i (84 :: d1 :: d2 :: r2) = (i, i + 3) :: hourTimeMatches.go u f (some d2) (i + 3) r2 := by
+  simp [hourTimeMatches.go, hp, h1, h2]
+
+theorem matches_one (u : Uni) (pre post : Str) (d1 d2 : Nat) (hpre : 84 ∉ pre) (hpost : 84 ∉ post)
+    (hl : lastOpt none pre ≠ some 80) (h1 : (u.digitVal d1).isSome = true) (h2 : (u.digitVal d2).isSome = true) :
+    hourTimeMatches u (pre ++ 84 :: d1 :: d2 :: post) = [(pre.length, pre.length + 3)] := by
+  unfold hourTimeMatches
+  have e : (pre ++ 84 :: d1 :: d2 :: post).length + 1 = pre.length + ((post.length + 3) + 1) := by simp; omega
+  rw [e, go_skip u _ _ pre none 0 hpre, go_hit u _ _ _ d1 d2 post hl h1 h2, go_no84 u _ _ _ post hpost]
+  simp
+
+theorem matches_none (u : Uni) (s : Str) (h : 84 ∉ s) : hourTimeMatches u s = [] := by
+  unfold hourTimeMatches; exact go_no84 u _ _ _ s h
+
+theorem allStrToPm_one (u : Uni) (pre post : Str) (d1 d2 : Nat) (q : Str) (hpre : 84 ∉ pre) (hpost : 84 ∉ post)
+    (hl : lastOpt none pre ≠ some 80) (h1 : (u.digitVal d1).isSome = true) (h2 : (u.digitVal d2).isSome = true)
+    (hq : toPm u [84, d1, d2] = some q) :
+    allStrToPm u (pre ++ 84 :: d1 :: d2 :: post) = some (pre ++ q ++ post) := by
+  have mid : hourTimeMatches u [84, d1, d2] = [(0, 3)] := by
+    have := matches_one u [] [] d1 d2 (by simp) (by simp) (by simp [lastOpt]) h1 h2
+    simpa using this
+  unfold allStrToPm
+  rw [matches_one u pre post d1 d2 hpre hpost hl h1 h2]
+  have t1 : slice (pre ++ 84 :: d1 :: d2 :: post) 0 pre.length = pre := by simp [slice]
+  have t2 : slice (pre ++ 84 :: d1 :: d2 :: post) pre.length (pre.length + 3) = [84, d1, d2] := by simp [slice]
+  have t3 : (pre ++ 84 :: d1 :: d2 :: post).drop (pre.length + 3) = post := by
+    rw [List.drop_append]; simp
+  have t4 : ((pre ++ 84 :: d1 :: d2 :: post).take (pre.length + 3)).isEmpty = false := by
+    rw [List.take_append]; simp
+  simp only [pmPieces, t1, t2, t3, t4]
+  cases pre with
+  | nil => simp [mid, hq, matches_none u post hpost]
+  | cons a b =>
+    have : 84 ∉ a :: b := hpre
+    simp [mid, hq, matches_none u post hpost, matches_none u (a :: b) this]
+
+
+theorem tail_le (c : Clock) (wf60 : c.m < 60 ∧ c.s < 60) : ∀ x ∈ c.tail, x ≤ 58 := by
+  intro x hx
+  have hm : ∀ p, c.ms = some p → p.2 = c.m := by intro p e; simp [Clock.m, e]
+  have hs : ∀ p, c.ss = some p → p.2 = c.s := by intro p e; simp [Clock.s, e]
+  simp only [Clock.tail] at hx
+  cases em : c.ms with
+  | none =>
+    cases es : c.ss with
+    | none => simp [em, es] at hx
+    | some q =>
+      have := hs q es
+      simp [em, es, sColon, fmtD2 q.2 (by omega)] at hx; omega
+  | some p =>
+    have := hm p em
+    cases es : c.ss with
+    | none => simp [em, es, sColon, fmtD2 p.2 (by omega)] at hx; omega
+    | some q =>
+      have := hs q es
+      simp [em, es, sColon, fmtD2 p.2 (by omega), fmtD2 q.2 (by omega)] at hx; omega
+
+theorem ymd_explicit (y mo d : Nat) (h1 : 1000 ≤ y) (h2 : y < 10000) (hm : mo < 100) (hd : d < 100) :
+    ymd y mo d = [48 + y / 1000, 48 + y / 100 % 10, 48 + y / 10 % 10, 48 + y % 10, 45, 48 + mo / 10, 48 + mo % 10, 45,
+      48 + d / 10, 48 + d % 10] := by
+  simp [ymd, fmtD4 y h1 h2, fmtD2 mo hm, fmtD2 d hd, sDash]
+
+theorem hms_explicit (hh m s : Nat) (h : hh < 100) (hm : m < 100) (hs : s < 100) :
+    hms hh m s = [48 + hh / 10, 48 + hh % 10, 58, 48 + m / 10, 48 + m % 10, 58, 48 + s / 10, 48 + s % 10] := by
+  simp [hms, fmtD2 hh h, fmtD2 m hm, fmtD2 s hs, sColon]
+
+/-- a datetime slot commented `ampm` resolves to the AM reading and the one `to_pm` / `all_str_to_pm` derive -/
+theorem dtRes_datetime_ampm (u : Uni) (ha : u.Ascii) (c : Clock) (w60 : c.m < 60 ∧ c.s < 60) (y mo d hh : Nat)
+    (h1 : 1000 ≤ y) (h2 : y < 10000) (hmo : mo < 100) (hd : d < 100) (h : hh < 100) :
+    dateTimeResolution u (toSlot .datetime (Res.mk true (ymd y mo d ++ c.timex hh) sAmPm
+        ⟨y, mo, d, hh, c.m, c.s⟩ ⟨y, mo, d, hh, c.m, c.s⟩)) =
+      .ok (some [{ timex := ymd y mo d ++ c.timex hh, type := sDateTime, value := some (ymd y mo d ++ 32 :: hms hh c.m c.s) },
+                 { timex := ymd y mo d ++ c.timex (pmHour hh), type := sDateTime,
+                   value := some (ymd y mo d ++ 32 :: hms (pmHour hh) c.m c.s) }]) := by
+  have ye := ymd_explicit y mo d h1 h2 hmo hd
+  have he := hms_explicit hh c.m c.s h (by omega) (by omega)
+  have y32 : 32 ∉ ymd y mo d := by rw [ye]; simp; omega
+  have h32 : 32 ∉ hms hh c.m c.s := by rw [he]; simp; omega
+  have y84 : 84 ∉ ymd y mo d := by rw [ye]; simp; omega
+  have t84 : 84 ∉ c.tail := by intro hx; have := tail_le c w60 84 hx; omega
+  have yl : lastOpt none (ymd y mo d) ≠ some 80 := by rw [ye]; simp [lastOpt]; omega
+  have p1 := toPm_hh u ha hh h true [] (Or.inl rfl)
+  have p2 := toPm_hh u ha hh h false (sColon ++ fmtD 2 (c.m : Int) ++ sColon ++ fmtD 2 (c.s : Int)) (Or.inr ⟨_, rfl⟩)
+  simp only [if_true, Bool.false_eq_true, if_false, List.nil_append, List.singleton_append, List.cons_append,
+    List.append_nil] at p1 p2
+  have e : hms hh c.m c.s = fmtD 2 (hh : Int) ++ (sColon ++ fmtD 2 (c.m : Int) ++ sColon ++ fmtD 2 (c.s : Int)) := by
+    simp [hms]
+  have e' : hms (pmHour hh) c.m c.s =
+      fmtD 2 (pmHour hh : Int) ++ (sColon ++ fmtD 2 (c.m : Int) ++ sColon ++ fmtD 2 (c.s : Int)) := by simp [hms]
+  rw [← e] at p2
+  rw [← e'] at p2
+  have f2 := fmtD2 hh h
+  rw [f2] at p1
+  have da := ha.digit (hh / 10) (by omega)
+  have db := ha.digit (hh % 10) (by omega)
+  have all := allStrToPm_one u (ymd y mo d) c.tail (48 + hh / 10) (48 + hh % 10) _ y84 t84 yl (by simp [da]) (by simp [db]) p1
+  have tx : ymd y mo d ++ c.timex hh = ymd y mo d ++ 84 :: (48 + hh / 10) :: (48 + hh % 10) :: c.tail := by
+    simp [Clock.timex, f2]
+  have sp : splitOn 32 (ymd y mo d ++ 32 :: hms hh c.m c.s) = [ymd y mo d, hms hh c.m c.s] := by
+    rw [splitOn_append 32 _ _ y32, splitOn_nosep 32 _ h32]
+  have ne : (ymd y mo d ++ c.timex hh).isEmpty = false := by rw [ye]; simp
+  simp only [dateTimeResolution, toSlot, fmtFor, formatDateTime_eq, gen_datetime y mo d hh c.m c.s h1 h2, sDateTime,
+    if_true, List.isEmpty_cons, Bool.false_eq_true, if_false, ne, resolvePm, sp, p2, tx, all, bind, Except.bind, pure,
+    Except.pure, List.mapM_cons, List.mapM_nil]
+  simp [Clock.timex, tx]
+
+
+/-- the value entry of `<date> at <time>`: TIMEX = date TIMEX ++ time TIMEX, value `YYYY-MM-DD hh:mm:ss` -/
+def Clock.dtValue (c : Clock) (y mo d hh : Nat) : Value :=
+  { timex := ymd y mo d ++ c.timex hh, type := sDateTime, value := some (ymd y mo d ++ 32 :: hms hh c.m c.s) }
+
+theorem resolveDateAtTime_clock (u : Uni) (ha : u.Ascii) (dcfg : DateCfg) (hmax : dcfg.maxTwoDigitYearFuture ≤ 100)
+    (dg : DateGroups) (y mo d : Nat) (hdec : Decodes u dcfg dg y mo d) (hy : 1000 ≤ y ∧ y ≤ 9999)
+    (hvd : (⟨y, mo, d⟩ : Date).valid = true) (wy : Int) (tcfg : TimeCfg) (c : Clock) (wf : c.WF u) (amD pmD : Bool)
+    (hz : tcfg.zeroHourIsNone = false ∨ 0 < c.h) (ref : DT) (hv : ref.date.valid = true) :
+    resolveDateAtTime u dcfg dg wy tcfg (c.groups amD pmD) false false ref =
+      .ok (some (if 0 < adjHour c.h amD pmD ∧ adjHour c.h amD pmD ≤ 12 ∧ amD = false ∧ pmD = false
+                 then [c.dtValue y mo d (adjHour c.h amD pmD), c.dtValue y mo d (pmHour (adjHour c.h amD pmD))]
+                 else [c.dtValue y mo d (adjHour c.h amD pmD)])) := by
+  have a24 := adjHour_lt c.h amD pmD wf.h24
+  have w60 := wf_m60 u c wf
+  have hp : pivotYear dcfg y = y := pivot_four dcfg y (by omega) hmax
+  have vm := (valid_iff ⟨y, mo, d⟩).1 hvd
+  have dim : daysInMonth y mo ≤ 31 := by unfold daysInMonth; split <;> (try split) <;> omega
+  simp only at vm
+  simp only [resolveDateAtTime, matchToDate_of u dcfg dg y mo d y wy ref hdec hp (by omega), safeCreate_valid y mo d hvd,
+    matchToTime_clock u tcfg c amD pmD ref wf hz hv, bind, Except.bind, Option.getD_some]
+  rw [merge_clock c w60 _ a24 _ _ y mo d hvd _ ⟨rfl, rfl, rfl⟩]
+  simp only []
+  split
+  · rename_i hc
+    obtain ⟨_, h12, rfl, rfl⟩ := hc
+    have cnd : (adjHour c.h false false ≤ 12 ∧ sAmPm ≠ []) := ⟨h12, sAmPm_ne_nil⟩
+    simp only [cnd, and_self, if_true]
+    exact dtRes_datetime_ampm u ha c w60 y mo d _ (by omega) (by omega) (by omega) (by omega) (by omega)
+  · simp only [ne_eq, not_true_eq_false, and_false, if_false]
+    exact dtRes_datetime_plain u _ y mo d _ c.m c.s (by omega) (by omega)
 
 end RTV.DtRes
